@@ -234,6 +234,29 @@ func genVariants(p *an.Prog, files map[string]bool) []variant {
 			}
 			return true
 		})
+		// invariance: a no-op closure added to a function that already contains closures (closure ordinals shift;
+		// the tables anchor closures by role: go / defer / callee they are passed to / variable they are stored in)
+		for _, d := range f.Decls {
+			fd, ok := d.(*ast.FuncDecl)
+			if !ok || fd.Body == nil || len(fd.Body.List) == 0 {
+				continue
+			}
+			has := false
+			ast.Inspect(fd.Body, func(m ast.Node) bool {
+				if _, isL := m.(*ast.FuncLit); isL {
+					has = true
+				}
+				return !has
+			})
+			if !has {
+				continue
+			}
+			first := fd.Body.List[0]
+			out = append(out, variant{Kind: "inv", Op: "add-noop-closure", Desc: "`_ = func() {}` added at the top of " + fd.Name.Name, Pos: at(fd),
+				Edits: []edit{{fname, off(first.Pos()), off(first.Pos()), "_ = func() {}\n"}}})
+			out = append(out, variant{Kind: "inv", Op: "add-noop-deferred-closure", Desc: "`defer func() {}()` added at the top of " + fd.Name.Name, Pos: at(fd),
+				Edits: []edit{{fname, off(first.Pos()), off(first.Pos()), "defer func() {}()\n"}}})
+		}
 		// invariance: `defer mu.Unlock()` -> explicit unlock before every return (only where that preserves
 		// behaviour: no other defer, no panic, no func literal, and every return yields identifiers / literals only)
 		for _, d := range f.Decls {
